@@ -5,6 +5,9 @@
 -- driver of C12 evaluates both (translation validation of tie T).
 import Winter.Model.Serde
 import Winter.Gen.Serde
+import Winter.Gen.ReadGuards
+import Winter.Gen.TraceInfo
+import Winter.Gen.ProofOpts
 
 namespace Model.Serde
 
@@ -26,5 +29,48 @@ def readUsizeG : Dec Nat := do
   else do
     let s ← readSlice length
     pure (Gen.Serde.read_usize_value (ofLeBytes s) length)
+
+-- the decoders of `TraceInfo`, `ProofOptions` and `Context` with exactly their guards (which byte values are
+-- rejected) replaced by the conditions regenerated from the three `read_from` functions on this run
+-- (Winter/Gen/ReadGuards.lean); the constructor calls at their ends by the regenerated assertions
+open Gen.ReadGuards in
+def traceInfoDecG : Dec TraceInfo := do
+  let main ← readU8
+  if trace_info_main_zero main then Dec.fail else do
+  let aux ← readU8
+  if trace_info_too_wide (trace_info_full_width main aux) then Dec.fail else do
+  let rands ← readU8
+  if trace_info_rands_without_aux aux rands then Dec.fail else do
+  if trace_info_too_many_rands rands then Dec.fail else do
+  let e ← readU8
+  if trace_info_too_short e then Dec.fail else do
+  if !(trace_info_length e).1 then Dec.fail else do
+  let n ← readUInt 2
+  let md ← (if trace_info_has_meta n then readSlice n else pure [])
+  let t : TraceInfo := ⟨main, aux, rands, (trace_info_length e).2, md⟩
+  if Gen.TraceInfo.new_multi_segment_ok main aux rands (trace_info_length e).2 md then pure t else Dec.panic
+
+open Gen.ReadGuards in
+def proofOptionsDecG : Dec ProofOptions := do
+  let nq ← readU8
+  let bl ← readU8
+  let gr ← readU8
+  let fe ← fext.dec
+  let ff ← readU8
+  let rd ← readU8
+  if proof_options_bad_queries nq || proof_options_bad_blowup bl || proof_options_bad_grinding gr
+      || proof_options_bad_folding ff || proof_options_bad_remainder rd then Dec.fail
+  else if Gen.ProofOpts.new_ok nq bl gr fe ff rd then pure ⟨nq, bl, gr, fe, ff, rd⟩ else Dec.panic
+
+open Gen.ReadGuards in
+def contextDecG : Dec Context := do
+  let ti ← traceInfoDecG
+  let n ← readU8
+  if context_empty_modulus n then Dec.fail else do
+  let m ← readSlice n
+  let o ← proofOptionsDecG
+  if context_trace_too_long ti.length then Dec.fail else do
+  if context_lde_too_big (context_lde ti.length o.blowup) then Dec.fail else do
+  pure ⟨ti, m, o⟩
 
 end Model.Serde
